@@ -23,7 +23,7 @@ def _names(level, s, l, c):
 
 
 class Gram:
-    def __init__(self, builder, level, short_flags="", short_args="", env_names=(), note="", names=None):
+    def __init__(self, builder, level, short_flags="", short_args="", env_names=(), note="", names=None, help_shorts="hV"):
         self.builder = "vharness::grammars::" + builder
         self.name = builder
         self.level = level
@@ -35,7 +35,9 @@ class Gram:
             self.all_longs += list(names[1])
             self.cmd_names += list(names[2])
         # help/version shorts are always declared flags
-        self.decl = Decl(short_flags + "hV", short_args)
+        self.decl = Decl(short_flags + help_shorts, short_args)
+        self.own_short_flags = short_flags
+        self.own_short_args = short_args
         self.env_names = list(env_names)
         self.note = note
 
@@ -163,7 +165,7 @@ add(Gram("j1", Level([
     Named("arg", "b", ["beta"], arity="opt", adjacent=True),
 ]), short_flags="a", short_args="b", note="adjacent-restricted argument"))
 add(Gram("k1", None, short_flags="ps", names=("ps", ["point", "sw"], []), note="adjacent multi-value option, repeated"))
-add(Gram("k2", None, short_flags="rs", short_args="wh", names=("rswh", ["rect", "sw", "width", "height"], []), note="adjacent option-struct (help is --help only)"))
+add(Gram("k2", None, short_flags="rs", short_args="wh", help_shorts="V", names=("rswh", ["rect", "sw", "width", "height"], []), note="adjacent option-struct (help is --help only)"))
 
 add(Gram("h1", Level([
     Named("switch", "a", ["alpha"]),
@@ -182,3 +184,13 @@ add(Gram("e1", Level([
     Named("arg", "f", ["fall"], arity="fallback", env="VERIF_F", default=42),
 ]), short_flags="a", short_args="bcdf", env_names=["VERIF_A", "VERIF_B", "VERIF_C", "VERIF_D", "VERIF_F"],
     note="env-backed switch and arguments under every wrapper"))
+
+add(Gram("kc", None, short_flags="va", names=("va", ["verbose", "all"], ["c"]), note="adjacent subcommand chain `c [-a]`..., top-level switch, positional tail"))
+
+add(Gram("k3", None, short_flags="rs", short_args="wh", help_shorts="V", names=("rswh", ["rect", "sw", "width", "height"], []), note="switch before an optional adjacent option-struct"))
+add(Gram("k4", None, short_flags="rs", short_args="wh", help_shorts="V", names=("rswh", ["rect", "sw", "width", "height"], []), note="switch before a repeated adjacent option-struct"))
+
+add(Gram("c4", Level([
+    Named("arg", "t", ["top"], arity="req"),
+    Cmds([Cmd(["add"], _c1_add)]),
+]), short_flags="n", short_args="t", note="required top-level argument before a subcommand"))
